@@ -77,7 +77,10 @@ class _Alarm(BaseException):
 
 
 def _on_alarm(_sig, _frm):
-    raise _Alarm()
+    # effective only while the code under test runs: never interrupt the harness's own bookkeeping
+    if _state.get("armed"):
+        _state["armed"] = False
+        raise _Alarm()
 
 
 def nlines(text):
@@ -293,6 +296,7 @@ def run_one(text, mode, opts):
     signal.setitimer(signal.ITIMER_VIRTUAL, ALARM_S)
     sink = io.StringIO()
     try:
+        _state["armed"] = True
         with contextlib.redirect_stdout(sink), contextlib.redirect_stderr(sink):
             if mode == "top":
                 scenic.scenarioFromString(text, params=dict(opts.get("params") or {}), mode2D=bool(opts.get("mode2D")))
@@ -300,10 +304,12 @@ def run_one(text, mode, opts):
                 st = T.parse_string(text, "exec", filename="<string>")
                 tree, _r = T.compileScenicAST(st, filename="<string>")
                 T.compileTranslatedTree(tree, "<string>")
+        _state["armed"] = False
         signal.alarm(0)
         signal.setitimer(signal.ITIMER_VIRTUAL, 0)
         LOG.append(["end", "ok", "none", 0, 0, 0])
     except BaseException as e:
+        _state["armed"] = False
         signal.alarm(0)
         signal.setitimer(signal.ITIMER_VIRTUAL, 0)
         if isinstance(e, KeyboardInterrupt):
@@ -321,6 +327,7 @@ def run_one(text, mode, opts):
                 "raised_in": getattr(e, "_c10_tb", []), "known": signature(e, stage, text, getattr(e, "_c10_tb", [])) if kind == "internal" else None}
         LOG.append(["end", "fail", kind, _line(e) if stage in INPUT_STAGES else 0, 0, 0])
     finally:
+        _state["armed"] = False
         signal.alarm(0)
         signal.setitimer(signal.ITIMER_VIRTUAL, 0)
         signal.signal(signal.SIGALRM, old)
@@ -338,8 +345,19 @@ def run_chunk(item):
     worker_init(workdir)
     out = []
     for rid, text, mode, opts in runs:
-        ev, info = run_one(text, mode, opts)
-        out.append((rid, ev, info))
+        for attempt in (1, 2):
+            try:
+                ev, info = run_one(text, mode, opts)
+                out.append((rid, ev, info))
+                break
+            except KeyboardInterrupt:
+                raise
+            except BaseException as e:  # a failure of the harness's own bookkeeping around one run:
+                _state["armed"] = False  # retry once, then drop the run (counted, never a verdict)
+                signal.alarm(0)
+                signal.setitimer(signal.ITIMER_VIRTUAL, 0)
+                if attempt == 2:
+                    out.append((rid, None, {"machinery": f"{type(e).__name__}: {e}"[:200]}))
     return out
 
 
@@ -449,8 +467,8 @@ def token_spans(text):
             s = offs[t.start[0] - 1] + t.start[1]
             e = offs[t.end[0] - 1] + t.end[1]
             spans.append((s, e))
-    except (tokenize.TokenError, IndentationError, SyntaxError, IndexError):
-        pass
+    except Exception:  # TokenError, IndentationError, SyntaxError ... and the SystemError CPython 3.12's tokenizer
+        pass           # raises on a NUL byte inside an indented block: keep the tokens seen so far
     return spans
 
 
@@ -769,7 +787,7 @@ def check_formula(item):
 def make_runs(tier):
     rnd = random.Random(seed() * 7919 + 10)
     seeds = collect_seeds()
-    n_mut = 700 if tier == "quick" else 8000
+    n_mut = 500 if tier == "quick" else 8000
     light = [s for s in seeds if s[2]]
     runs = []
     # every seed unmutated through the bare pipeline; the light ones through the whole lifecycle
@@ -783,11 +801,15 @@ def make_runs(tier):
         sid, text, is_light = pool[rnd.randrange(len(pool))]
         op = OPS[rnd.randrange(len(OPS))]
         pos, arg = rnd.randrange(1 << 20), rnd.randrange(1 << 20)
-        mtext = mutate(text, op, pos, arg)[0]
-        if rnd.random() < 0.25:  # a second mutation on top
-            op2 = OPS[rnd.randrange(len(OPS))]
-            mtext = mutate(mtext, op2, rnd.randrange(1 << 20), rnd.randrange(1 << 20))[0]
-            op = op + "+" + op2
+        second = rnd.random() < 0.25  # a second mutation on top
+        op2, pos2, arg2 = OPS[rnd.randrange(len(OPS))], rnd.randrange(1 << 20), rnd.randrange(1 << 20)
+        try:
+            mtext = mutate(text, op, pos, arg)[0]
+            if second:
+                mtext = mutate(mtext, op2, pos2, arg2)[0]
+                op = op + "+" + op2
+        except Exception:
+            continue  # generator failure: schedule dropped
         rid = f"{sid}|{op}@{pos},{arg}|"
         runs.append((rid + "direct", mtext, "direct", {}))
         if is_light and k % 2 == 0:
@@ -935,8 +957,12 @@ def main(tier):
     traces = {}
     bykey = {}
     stats = {"top": 0, "direct": 0, "ok": 0, "syntax": 0, "user": 0, "invalid": 0, "internal": 0, "timeout": 0, "exec_timeouts": 0}
+    machinery_drops = []
     for chunk in outs:
         for rid, ev, info in chunk:
+            if ev is None:
+                machinery_drops.append((rid, info.get("machinery")))
+                continue
             mode = "top" if rid.endswith("|top") else "direct"
             stats[mode] += 1
             end = [e for e in ev if e[0] == "end"][0]
@@ -989,6 +1015,10 @@ def main(tier):
         "machine (identical traces are validated once); non-trivial = the trace has more than 6 events (the parser was passed or an import "
         "happened), a formula with at least 3 nodes, or a documented form; distinct by input text and mode"
     )
+    ck.cov["machinery_drops"] = len(machinery_drops)
+    ck.cov["dropped_by_generator"] += len(machinery_drops)
+    if len(machinery_drops) > max(5, len(runs) // 100):
+        raise MachineryError(f"too many runs lost to harness-side failures: {machinery_drops[:3]}")
     ck.cov["seeds"] = nseeds
     ck.cov["runs"] = stats
     ck.cov["distinct_traces"] = len(traces)
